@@ -44,7 +44,7 @@ def step (l : Line) : Verdict :=
         | .handled => if res ≠ "REPLY" then .diff "REPLY" else .ok
         | .init => .ok
     | _, _ => .bad "req args"
-  | "http", [raw], [reply] =>
+  | "http", raw :: _redir, [reply] =>
     -- a request over TCP to the real listener: however it is framed, it is answered (protocol reply or decoy)
     if reply == "reply=200" ∨ reply == "reply=404" ∨ reply == "reply=400" then .ok
     else .specFail "C01.no-reply" s!"a request of {raw.length / 2} bytes to the HTTP listener got no HTTP answer ({reply}): the handler did not end with a reply or the decoy"
